@@ -1909,6 +1909,21 @@ class Gen:
         else:
             ks = [r.choice(KEYS_INT)]
         op["key_dirs"] = [[k, r.choice([1, -1])] for k in ks]
+        if r.random() < 0.3 and ck:
+            # macro: sort -> a step that changes order or key values -> aggregate by the sort key
+            # (group order must come from the data, never from remembered sortedness)
+            key = ks[0]
+            h1 = op["out"]
+            h2, h3 = self.w.new_handle(), self.w.new_handle()
+            step = r.choice(["reverse_slice", "modify", "modify"])
+            if step == "reverse_slice":
+                self.pending.append({"op": "slice", "t": h1, "out": h2, "start": None, "stop": None, "stride": -1})
+            else:
+                self.pending.append({"op": "modify", "t": h1, "out": h2,
+                                     "pairs": [[key, {"f": "nkeys"} if key in KEYS_INT and r.random() < 0.5
+                                                else {"f": "const", "v": self.value(key)}]]})
+            self.pending.append({"op": "aggregate", "t": h2, "out": h3, "keys": [key],
+                                 "aggs": [["n", {"g": "len"}], ["p", {"g": "pluck", "k": r.choice(KEYS_INT)}]]})
         return op
 
     def g_reverse(self):
